@@ -15,3 +15,47 @@ package host
 //@   prop C03 C15
 //@   requires set != nil
 //@   modifies nothing
+
+// ---- C15: the host set (invariant over the three maps) --------------------------------------------
+
+//@ func (*Set).healthy
+//@   prop C15 C03 C06
+//@   requires set != nil
+//@   modifies nothing
+//@   ensures @prefers-main result == ite(len(set.healthyMain) == 0, set.healthyBackup, set.healthyMain)
+
+//@ func (*Set).addToHealthy
+//@   prop C15
+//@   requires set != nil && setwf(set) && forall k int :: 0 <= k && k < len(host) && host[k] != nil ==> has(set.all, host[k].Addr) && set.all[host[k].Addr] == host[k] && (host[k].Type == 0 ==> !has(set.healthyBackup, host[k].Addr)) && (host[k].Type == 1 ==> !has(set.healthyMain, host[k].Addr))
+//@   modifies mapof(set.healthyMain), mapof(set.healthyBackup), aval
+//@   ensures @invariant setwf(set)
+//@   loop 0 invariant setwf(set) && set.all == old(set.all) && set.healthyMain == old(set.healthyMain) && set.healthyBackup == old(set.healthyBackup)
+
+//@ func (*Set).removeFromHealthy
+//@   prop C15
+//@   requires set != nil && setwf(set)
+//@   modifies mapof(set.healthyMain), mapof(set.healthyBackup), aval
+//@   ensures @invariant setwf(set)
+//@   ensures @removed forall k int :: 0 <= k && k < len(host) && host[k] != nil ==> (host[k].Type == 0 ==> !has(set.healthyMain, host[k].Addr)) && (host[k].Type == 1 ==> !has(set.healthyBackup, host[k].Addr))
+//@   loop 0 invariant setwf(set) && set.all == old(set.all) && set.healthyMain == old(set.healthyMain) && set.healthyBackup == old(set.healthyBackup)
+//@   loop 0 invariant forall k int :: 0 <= k && k <= rangeindex && host[k] != nil ==> (host[k].Type == 0 ==> !has(set.healthyMain, host[k].Addr)) && (host[k].Type == 1 ==> !has(set.healthyBackup, host[k].Addr))
+
+//@ func (*Set).buildHealthyCache
+//@   prop C15 C06
+//@   requires set != nil && setwf(set)
+//@   modifies aval
+//@   ensures @invariant setwf(set)
+
+//@ func (*Set).add
+//@   prop C15
+//@   requires set != nil && setwf(set) && forall k int :: 0 <= k && k < len(hosts) ==> hosts[k] != nil && (hosts[k].Type == 0 || hosts[k].Type == 1)
+//@   modifies mapof(set.all), mapof(set.healthyMain), mapof(set.healthyBackup), aval
+//@   ensures @invariant setwf(set)
+//@   loop 0 invariant set.all == old(set.all) && set.healthyMain == old(set.healthyMain) && set.healthyBackup == old(set.healthyBackup) && set.all != nil
+//@   loop 0 invariant @all-wellformed forall a string :: has(set.all, a) ==> set.all[a] != nil && set.all[a].Addr == a
+
+//@ func (*Set).remove
+//@   prop C15
+//@   requires set != nil && setwf(set) && forall k int :: 0 <= k && k < len(hosts) ==> hosts[k] != nil
+//@   modifies all
+//@   ensures @invariant setwf(set)
